@@ -13,9 +13,11 @@ reports the entry found, `Open` terminates with the same answer for every suffic
 chain ends (`C29_open_ok_no_loop`, `C29_open_fuel_independent`), absolute targets fail cleanly, `ReadDir(n ≤ 0)`
 lists exactly the directory.
 
-False on the pinned code, with witnesses (each a separately classified known finding):
-  * a symlink cycle makes `open` recurse for ever: no fuel suffices       (`C29_open_diverges_on_loop*`)
-  * `ReadDir(n > 0)` has no read offset: every call returns the first `n`  (`C29_readDir_paging_violated`)
+Repaired in /repo (fix: commits) and now proved in full: symlink loops fail cleanly (`C29_open_loop_fails_cleanly`,
+`C29_open_never_diverges`; the old behaviour survives as the negative control `C29_unlimited_open_diverges_*`), and
+`ReadDir` pages as io/fs demands (`C29_readDir_paging`; negative control `C29_stateless_readDir_violates_paging`).
+
+Still false on the code, with witnesses (each a separately classified known finding):
   * `Open` accepts names `fs.ValidPath` rejects                            (`C29_witness_invalid_path`)
   * `Stat` does not follow symlinks although `Open` does                   (`C29_witness_stat_lstat`)
   * a path through a symlink to a directory is not resolved                (`C29_witness_path_through_link`)
@@ -25,16 +27,14 @@ open PlzVerif.CASFS PlzVerif.Cmd
 
 /-- Side condition on the regenerated facts: the shape of fs.go the model transcribes.  `findNode` searches
     directories, then cuts when a directory is required, then files, then symlinks, with the `.` and `..`
-    cases; `open` calls itself once, after the absolute-target check, with nothing that bounds the recursion;
-    `ReadDir` walks the three lists in the same order, never returns `io.EOF` and the `dir` value carries no
-    state it could advance. -/
+    cases; `open` calls itself once, after the absolute-target check, under a depth limit (`if depth > N` first, the
+    recursive call passes `depth+1`); `ReadDir` lists the three lists in the same order and the `dir` handle keeps a
+    read offset that `ReadDir` advances, returning `io.EOF` at the end. -/
 def FactsOK : Bool :=
   Generated.C29.findOrder == ["Directories", "mustBeDir", "Files", "Symlinks"] &&
   Generated.C29.findDot && Generated.C29.findDotDot &&
-  Generated.C29.openParams == 1 && Generated.C29.openSelfCalls == 1 && Generated.C29.openAbsCheckFirst &&
-  !Generated.C29.openHasLoopOrCounter &&
-  Generated.C29.readDirOrder == ["Directories", "Files", "Symlinks"] && !Generated.C29.readDirReturnsEOF &&
-  Generated.C29.dirIntFields == 0 && !Generated.C29.readDirMutatesReceiver
+  Generated.C29.openSelfCalls == 1 && Generated.C29.openAbsCheckFirst && Generated.C29.openDepthLimit.isSome &&
+  Generated.C29.readDirOrder == ["Directories", "Files", "Symlinks"] && Generated.C29.readDirHasOffset
 
 theorem C29_facts_ok : FactsOK = true := by decide
 
@@ -43,9 +43,9 @@ theorem C29_facts_ok : FactsOK = true := by decide
     transcribes: any change of structure, operator, constant, call or statement order flips this. -/
 def expectedSkeletons : List (String × String) :=
   [ ("skelFindNode", "e26aca13c73b607bb1d2d0c8"),
-    ("skelOpenRec", "1b04ba035af2d92941a68665"),
-    ("skelReadDir", "b9113771cd7e2a5193fe7dff"),
-    ("skelOpen", "1043b3fe45076432aa39dbd3"),
+    ("skelOpenRec", "5f36039e3c392274b3c952e0"),
+    ("skelReadDir", "40205a89e06838bfeeb3aabf"),
+    ("skelOpen", "39fa4d196c4588e2c909fc80"),
     ("skelFindNodeAPI", "42632bc903bbe154e91c7cc1"),
     ("skelStat", "923da5766ad015867b74b039"),
     ("skelNew", "a6a62b23139ed4d5ea8bf079"),
@@ -134,6 +134,28 @@ theorem C29_stat_faithful_wd (root : Dir) (wd name : Str) (hwf : WF root)
 
 example : ∀ c ∈ splitOnChar '/' ['s'], plain c := by decide
 
+/-- **A view is a prefix, nothing more**: opening `name` through a view with working directory `wd` is opening
+    `wd/name` through the root view.  In particular the symlink resolution inside (`openAt`) is relative to the
+    tree's *root*, never to the view's working directory — the working directory is joined in exactly once
+    (re-entering through `Open` from inside `open` would join it a second time). -/
+theorem C29_view_is_root_join (root : Dir) (fuel : Nat) (wd name : Str)
+    (hw : ∀ c ∈ splitOnChar '/' wd, plain c) (hn : ∀ c ∈ splitOnChar '/' name, plain c) :
+    openFS root fuel wd name = openFS root fuel [] (wd ++ '/' :: name) := by
+  unfold openFS
+  have hall : ∀ c ∈ splitOnChar '/' (wd ++ '/' :: name), plain c := by
+    rw [splitOnChar_append_sep]
+    intro c hc
+    rcases List.mem_append.mp hc with h | h
+    · exact hw c h
+    · exact hn c h
+  rw [join_wd_plain wd name hw hn, join_root_plain _ hall]
+
+-- the tree of the seeded regression: foo at the root and under sub, sub/l -> ../foo must read the ROOT's foo
+example :
+    let t : Dir := .mk [(['s'], .mk [] [⟨['f'], 2, 6, 0⟩] [⟨['l'], ['.', '.', '/', 'f'], 0⟩] 0)] [⟨['f'], 1, 6, 0⟩] [] 0
+    openFS t 3 ['s'] ['l'] = .file ⟨['f'], 1, 6, 0⟩ ∧ openFS t 3 [] ['s', '/', 'l'] = .file ⟨['f'], 1, 6, 0⟩ :=
+  ⟨by rfl, by rfl⟩
+
 /-- … and `Open(name)` on such a name starts its symlink resolution at exactly that entry. -/
 theorem C29_open_valid (root : Dir) (name : Str) (fuel : Nat) (hv : ∀ c ∈ splitOnChar '/' name, plain c) :
     openFS root fuel [] name = openAt root fuel name := by
@@ -193,6 +215,40 @@ theorem C29_open_follows_chain (root : Dir) (k : Nat) (p q : Str) (h : HopsTo ro
   obtain ⟨m, rfl⟩ : ∃ m, n = (m + 1) + k := ⟨n - k - 1, by omega⟩
   rw [openAt_hopsTo h, openAt_terminal_eq ht]
 
+/-- The depth limit read from the code. -/
+theorem C29_depth_limit_extracted : ∃ l, Generated.C29.openDepthLimit = some l := by
+  have h := C29_facts_ok
+  simp only [FactsOK, Bool.and_eq_true] at h
+  exact Option.isSome_iff_exists.mp h.1.1.2
+
+/-- **Open always returns** (repaired: fs.go `maxSymlinkDepth`): with the extracted limit no fuel is involved
+    any more — the model's "out of fuel" (Go's unbounded recursion) cannot be the result. -/
+theorem C29_open_never_diverges (l : Nat) (hl : Generated.C29.openDepthLimit = some l) (root : Dir) (fuel : Nat) (p : Str) :
+    openWith Generated.C29.openDepthLimit root fuel p ≠ .outOfFuel := by
+  rw [hl]; exact openWith_ne_outOfFuel l root fuel p
+
+/-- **Symlink loops fail cleanly**: on every cycle, of any length, `Open` returns the "too many levels of symbolic
+    links" error. -/
+theorem C29_open_loop_fails_cleanly (l : Nat) (hl : Generated.C29.openDepthLimit = some l) (root : Dir) (k fuel : Nat)
+    (p : Str) (h : HopsTo root (k + 1) p p) : openWith Generated.C29.openDepthLimit root fuel p = .tooManyLinks := by
+  rw [hl]; exact openWith_cycle l fuel h
+
+/-- A chain of at most `l` links is followed to its end and the entry there is returned … -/
+theorem C29_open_follows_chain_limited (l : Nat) (hl : Generated.C29.openDepthLimit = some l) (root : Dir) (k fuel : Nat)
+    (p q : Str) (h : HopsTo root k p q) (ht : Terminal root q) (hk : k ≤ l) :
+    openWith Generated.C29.openDepthLimit root fuel p = direct root q := by
+  rw [hl]; exact openWith_chain l fuel h ht hk
+
+/-- … and (**partial**: the price of the limit, as with the kernel's ELOOP) a loop-free chain of more than `l` links
+    is refused with the same clean error. -/
+theorem C29_open_deep_chain_refused_partial (l : Nat) (hl : Generated.C29.openDepthLimit = some l) (root : Dir)
+    (k fuel : Nat) (p q : Str) (h : HopsTo root k p q) (hk : l < k) :
+    openWith Generated.C29.openDepthLimit root fuel p = .tooManyLinks := by
+  rw [hl]; exact openWith_deep l fuel h hk
+
+example : openWith (some 3) (.mk [] [] [⟨['a'], ['b'], 0⟩, ⟨['b'], ['a'], 0⟩] 0) 0 ['a'] = .tooManyLinks := by rfl
+example : openWith (some 3) sampleTree 0 ['s', '/', 'l'] = .file ⟨['g'], 2, 7, 0⟩ := by rfl
+
 /-- A symlink hop, in terms of the tree: for plain components in a well-formed tree, `p` hops to `q` exactly
     when the tree has a relative symlink at `p` whose target, joined to `p`'s directory, is `q`. -/
 theorem C29_hop_iff_tree (root : Dir) (p q : Str) (hwf : WF root) (hp : ∀ c ∈ comps p, plain c) :
@@ -222,9 +278,10 @@ def loop2 : Dir := .mk [] [] [⟨['a'], ['b'], 0⟩, ⟨['b'], ['a'], 0⟩] 0
 /-- The tree `{a -> a}`. -/
 def loop1 : Dir := .mk [] [] [⟨['a'], ['a'], 0⟩] 0
 
-/-- Witness: on a two-link symlink loop no fuel suffices — the recursion of `CASFileSystem.open` never ends
-    (in Go: fatal stack overflow).  Full strength demands a clean error. -/
-theorem C29_open_diverges_on_loop : ∀ fuel, openFS loop2 fuel [] ['a'] = .outOfFuel := by
+/-- Negative control (the finding `symlink-loop-stack-overflow`, repaired by the depth limit): *without* a limit —
+    `openFS`/`openAt` are the unlimited recursion — a two-link symlink loop exhausts every fuel: the recursion never
+    ends (in Go: fatal stack overflow). -/
+theorem C29_unlimited_open_diverges_on_loop : ∀ fuel, openFS loop2 fuel [] ['a'] = .outOfFuel := by
   intro fuel
   have h1 : Hop loop2 ['a'] ['b'] := ⟨⟨['a'], ['b'], 0⟩, by rfl, by decide, by decide⟩
   have h2 : Hop loop2 ['b'] ['a'] := ⟨⟨['b'], ['a'], 0⟩, by rfl, by decide, by decide⟩
@@ -233,7 +290,7 @@ theorem C29_open_diverges_on_loop : ∀ fuel, openFS loop2 fuel [] ['a'] = .outO
   rw [e]
   exact (openAt_cycle2 h1 h2 fuel).1
 
-theorem C29_open_diverges_on_self_loop : ∀ fuel, openFS loop1 fuel [] ['a'] = .outOfFuel := by
+theorem C29_unlimited_open_diverges_on_self_loop : ∀ fuel, openFS loop1 fuel [] ['a'] = .outOfFuel := by
   intro fuel
   have h1 : Hop loop1 ['a'] ['a'] := ⟨⟨['a'], ['a'], 0⟩, by rfl, by decide, by decide⟩
   have e : pathJoin [pathClean [], ['a']] = ['a'] := by decide
@@ -241,8 +298,8 @@ theorem C29_open_diverges_on_self_loop : ∀ fuel, openFS loop1 fuel [] ['a'] = 
   rw [e]
   exact openAt_cycle1 h1 fuel
 
-/-- **Every** symlink cycle does it: if some number of hops leads from `p` back to `p`, no fuel suffices. -/
-theorem C29_open_diverges_on_any_cycle (root : Dir) (k : Nat) (p : Str) (h : HopsTo root (k + 1) p p) :
+/-- Negative control, general form: without a limit every symlink cycle exhausts every fuel. -/
+theorem C29_unlimited_open_diverges_on_any_cycle (root : Dir) (k : Nat) (p : Str) (h : HopsTo root (k + 1) p p) :
     ∀ fuel, openAt root fuel p = .outOfFuel := openAt_cycle h
 
 -- non-vacuity: a three-link cycle a -> b -> c -> a
@@ -280,28 +337,36 @@ theorem C29_readDir_all (d : Dir) (n : Int) (h : n ≤ 0) :
     readDir d n = d.dirs.map (fun e => dirInfo e.1 e.2) ++ d.files.map fileInfo ++ d.links.map linkInfo := by
   simp [readDir, h, entries]
 
-/-- **Partial**: the *first* `ReadDir(n)`, `n > 0`, of a non-empty directory is what the contract asks for. -/
-theorem C29_readDir_first_call_partial (d : Dir) (n : Nat) (hn : 0 < n) (hne : entries d ≠ []) :
-    (readDir d n, false) = readDirSpec (entries d) n 0 := by
-  have h1 : ¬ ((n : Int) ≤ 0) := by omega
-  simp only [readDir, h1, ↓reduceIte, Int.toNat_natCast, readDirSpec, Nat.zero_mul, List.drop_zero, Prod.mk.injEq, true_and]
-  cases he : entries d with
-  | nil => exact absurd he hne
-  | cons a as =>
-    cases n with
-    | zero => omega
-    | succ n => simp
+/-- **Paging** (repaired: the handle keeps a read offset): the `k`-th of successive calls `ReadDir(n)`, `n > 0`,
+    returns exactly what `io/fs.ReadDirFile` demands — the next chunk of at most `n` entries, and `io.EOF` exactly
+    when nothing is left. -/
+theorem C29_readDir_paging (d : Dir) (n : Nat) (hn : 0 < n) (k : Nat) :
+    readDirCall Generated.C29.readDirHasOffset d (n : Int) k = readDirSpec (entries d) n k := by
+  have h := C29_facts_ok
+  simp only [FactsOK, Bool.and_eq_true] at h
+  simp only [readDirCall, h.2, ↓reduceIte]
+  exact readDirStep_spec (entries d) n hn k
 
-/-- Witness: paging is violated — the second `ReadDir(2)` of a three-entry directory must return the third
-    entry (and a later call `io.EOF`); the code returns the first two again, for ever. -/
-theorem C29_readDir_paging_violated :
+/-- `ReadDir(n ≤ 0)` on the same handle: the first call returns the whole listing, every later call nothing, and
+    never an error (what `fstest.TestFS` checks as "ReadDir(-1) at EOF"). -/
+theorem C29_readDir_all_then_empty (d : Dir) (n : Int) (hn : n ≤ 0) :
+    readDirCall Generated.C29.readDirHasOffset d n 0 = (entries d, false) ∧
+    ∀ k, readDirCall Generated.C29.readDirHasOffset d n (k + 1) = ([], false) := by
+  have h := C29_facts_ok
+  simp only [FactsOK, Bool.and_eq_true] at h
+  simp only [readDirCall, h.2, ↓reduceIte]
+  exact readDirStep_all (entries d) n hn
+
+example : readDirCall true (.mk [] [⟨['x'], 1, 6, 0⟩, ⟨['y'], 2, 7, 0⟩, ⟨['z'], 3, 8, 0⟩] [] 0) 2 1 =
+    ([fileInfo ⟨['z'], 3, 8, 0⟩], false) := by decide
+example : readDirCall true (.mk [] [⟨['x'], 1, 6, 0⟩, ⟨['y'], 2, 7, 0⟩, ⟨['z'], 3, 8, 0⟩] [] 0) 2 2 = ([], true) := by decide
+
+/-- Negative control (the finding `readdir-has-no-offset`, repaired): a handle *without* an offset returns the first
+    two entries of a three-entry directory on every call and never `io.EOF`. -/
+theorem C29_stateless_readDir_violates_paging :
     let d : Dir := .mk [] [⟨['x'], 1, 6, 0⟩, ⟨['y'], 2, 7, 0⟩, ⟨['z'], 3, 8, 0⟩] [] 0
-    (readDir d 2, false) ≠ readDirSpec (entries d) 2 1 ∧ (readDir d 2, false) ≠ readDirSpec (entries d) 2 2 := by
+    readDirCall false d 2 1 ≠ readDirSpec (entries d) 2 1 ∧ readDirCall false d 2 2 ≠ readDirSpec (entries d) 2 2 := by
   decide
-
-/-- … and an empty directory never yields `io.EOF`. -/
-theorem C29_readDir_empty_never_eof :
-    (readDir (.mk [] [] [] 0) 1, false) ≠ readDirSpec (entries (.mk [] [] [] 0)) 1 0 := by decide
 
 /-! ## io/fs path and Stat contracts -/
 
